@@ -3,6 +3,7 @@ LOCKSET (state tables under _stateMutex), ADMIT (a new thread enters the executi
 critical section; the admission tests require 'no writer active' / 'nobody executing'), NO-WAIT-UNDER-LOCK, RECHECK (waits sit in a loop and the test is repeated
 after every wake-up), HANDOFF (after a thread leaves the executing table or a waiter gives up, a notify routine is reachable in the same critical section)."""
 import re
+from msa import guards as G
 from msa import pair as P
 from msa import ast as A
 from msa import cfg as C
@@ -46,16 +47,43 @@ def run(res, tier):
     # ---------------------------------------------------------------------------------- admission test bodies
     res.rule('ADMIT', 'the reader admission test requires _totalReadWriteRecurseCount == 0, the writer admission test requires _executingThreads.IsEmpty(); every registration of a new thread in '
                       '_executingThreads is dominated by the true edge of the matching test taken under the same guard object', floor=6)
+    def true_returns_imply(f, pred):
+        """every `return e` of the bool function f is `return false`, or e == true (together with the branch edges that dominate the return) implies an atom accepted by pred"""
+        rets = [n for n in f.walk() if n['k'] == 'ReturnStmt']
+        if not rets:
+            return False
+        for r in rets:
+            e = A.strip_casts(r['ch'][0])
+            if e['k'] == 'CXXBoolLiteralExpr' and not e.get('v'):
+                continue
+            atoms = A.implied_atoms(e, True)
+            p = P.pos_of(f, r)
+            for (g, t) in (C.guards_of_block(f, p[0]) if p else ()):
+                atoms += A.implied_atoms(f.nodes[g], t)
+            ex = []
+            for (a, t) in atoms:      # a local bool holding a conjunction
+                if a['k'] == 'DeclRefExpr' and t:
+                    for v in f.walk():
+                        if v['k'] == 'VarDecl' and v.get('d') == a.get('d') and v['ch']:
+                            ex += A.implied_atoms(v['ch'][0], True)
+            if not any(pred(a, t) for (a, t) in atoms + ex):
+                return False
+        return True
+
+    def rw_count_zero(a, t):
+        z = A.zero_test(a, t)
+        return z is not None and z[1] and A.strip_casts(z[0]).get('n') == '_totalReadWriteRecurseCount'
+
+    def executing_empty(a, t):
+        z = A.emptiness(a, t)
+        return z is not None and z[1] and z[0] is not None and A.strip_casts(z[0]).get('n') == '_executingThreads'
+
     f = fx.fn1(RW + '::IsOkayForReaderThreadsToExecuteNow')
-    rets = [n for n in f.walk() if n['k'] == 'ReturnStmt']
-    ok = len(rets) == 1 and any(a['k'] == 'BinaryOperator' and a.get('op') == '==' and A.strip_casts(a['ch'][0]).get('n') == '_totalReadWriteRecurseCount' and a['ch'][1].get('v') == 0
-                                for a in conj_atoms(rets[0]['ch'][0]))
-    res.ob('ADMIT', f.where(), 'readers are admitted only if no write lock is held (_totalReadWriteRecurseCount == 0 is a conjunct of the test)', ok, function=f.q, key='ADMIT|%s|body' % f.q,
-           message='IsOkayForReaderThreadsToExecuteNow can return true while a writer holds the lock: readers and a writer execute together')
+    res.ob('ADMIT', f.where(), 'readers are admitted only if no write lock is held (every true return implies _totalReadWriteRecurseCount == 0)', true_returns_imply(f, rw_count_zero), function=f.q,
+           key='ADMIT|%s|body' % f.q, message='IsOkayForReaderThreadsToExecuteNow can return true while a writer holds the lock: readers and a writer execute together')
     f = fx.fn1(RW + '::IsOkayForWriterThreadToExecuteNow')
-    rets = [n for n in f.walk() if n['k'] == 'ReturnStmt']
-    ok = len(rets) == 1 and any(a['k'] == 'CXXMemberCallExpr' and (a.get('q') or '').endswith('::IsEmpty') and A.strip_casts(a.receiver()).get('n') == '_executingThreads' for a in conj_atoms(rets[0]['ch'][0]))
-    res.ob('ADMIT', f.where(), 'a writer is admitted only if nobody is executing (_executingThreads.IsEmpty() is a conjunct of the test)', ok, function=f.q, key='ADMIT|%s|body' % f.q,
+    res.ob('ADMIT', f.where(), 'a writer is admitted only if nobody is executing (every true return implies that _executingThreads is empty)', true_returns_imply(f, executing_empty), function=f.q,
+           key='ADMIT|%s|body' % f.q,
            message='IsOkayForWriterThreadToExecuteNow can return true while other threads hold the lock: a writer runs together with readers or another writer')
     # ---------------------------------------------------------------------------------- registrations
     n_reg = 0
@@ -65,10 +93,8 @@ def run(res, tier):
         for c in f.walk():
             if c['k'] == 'CXXMemberCallExpr' and (c.get('q') or '') == RW + '::GetOrAllocateThreadState' and c.args() and A.strip_casts(c.args()[0]).get('n') == '_executingThreads':
                 n_reg += 1
-                gs = [(f.nodes[x], t) for (x, t) in C.guards_of_block(f, P.pos_of(f, c)[0])]
                 adm = None
-                for (cn, t) in gs:
-                    n, pol = P.strip_not(cn, t)
+                for (n, pol) in G.atoms_at(f, c):
                     if n.is_call() and (n.get('q') or '') == RW + '::' + test and pol:
                         adm = n
                 same_cs = adm is not None and bool(guard_ids(flow, f, adm) & guard_ids(flow, f, c))
@@ -83,21 +109,21 @@ def run(res, tier):
     inc = [n for n in f.walk() if n['k'] == 'UnaryOperator' and n.get('op') in ('post++', 'pre++') and A.strip_casts(n['ch'][0]).get('n') == '_totalReadWriteRecurseCount']
     okf = bool(inc)
     for i in inc:
-        gs = [(f.nodes[x], t) for (x, t) in C.guards_of_block(f, P.pos_of(f, i)[0])]
-        adm = any(P.strip_not(cn, t)[0].is_call() and (P.strip_not(cn, t)[0].get('q') or '').endswith('IsOkayForWriterThreadToExecuteNow') and P.strip_not(cn, t)[1] for (cn, t) in gs)
+        adm = any(n.is_call() and (n.get('q') or '').endswith('IsOkayForWriterThreadToExecuteNow') and pol for (n, pol) in G.atoms_at(f, i))
         # or the sole-holder / already-writer fast path
         paths, complete = C.paths_between(f, (f.entry, -1), P.pos_of(f, i))
         fast = complete and bool(paths)
         for asg in paths:
             good = False
             for (cid, truth) in asg.items():
-                n = A.strip_casts(f.nodes[cid])
-                if n['k'] == 'BinaryOperator' and n.get('op') == '>' and A.strip_casts(n['ch'][0]).get('n') == '_readWriteRecurseCount' and truth:
-                    good = True
-                if n['k'] == 'BinaryOperator' and n.get('op') == '==' and n['ch'][1].get('v') == 1 and any((x.get('q') or '').endswith('::GetNumItems') for x in n['ch'][0].walk() if x.is_call()) and truth:
-                    good = True
-                m, pol = P.strip_not(f.nodes[cid], truth)
-                if m.is_call() and (m.get('q') or '').endswith('IsOkayForWriterThreadToExecuteNow') and pol:
+              for (n, tr) in G.atoms_of_cond(f, f.nodes[cid], truth):
+                z = A.zero_test(n, tr)
+                if z is not None and not z[1] and A.strip_casts(z[0]).get('n') == '_readWriteRecurseCount':
+                    good = True       # the caller already holds the write lock
+                for (l, op, r) in A.rel_forms(n, tr):
+                    if ((op, r.get('v')) in (('==', 1), ('<=', 1), ('<', 2))) and l.is_call() and (l.get('q') or '').endswith('::GetNumItems') and A.strip_casts(l.receiver()).get('n') == '_executingThreads':
+                        good = True   # the caller (present in the table) is the sole executing thread
+                if n.is_call() and (n.get('q') or '').endswith('IsOkayForWriterThreadToExecuteNow') and tr:
                     good = True
             fast = fast and good
         okf = okf and (adm or fast)
@@ -160,15 +186,9 @@ def run(res, tier):
                 for (gn, t) in gs:
                     if not t:
                         continue
-                    for x in gn.walk():
+                    for x in A.walk_through_locals(f, gn):
                         if x['k'] == 'MemberExpr' and x.get('n') in ('_readOnlyRecurseCount', '_readWriteRecurseCount'):
                             fields.add(x.get('n'))
-                        if x['k'] == 'DeclRefExpr' and 'd' in x:
-                            for v in f.walk():
-                                if v['k'] == 'VarDecl' and v.get('d') == x['d'] and v['ch']:
-                                    for y in v['ch'][0].walk():
-                                        if y['k'] == 'MemberExpr' and y.get('n') in ('_readOnlyRecurseCount', '_readWriteRecurseCount'):
-                                            fields.add(y.get('n'))
                 res.ob('ADMIT', f.where(c), '%s: leaving _executingThreads is guarded by both recursion counts' % f.q.split('::')[-1], len(fields) == 2, how=str(sorted(fields)), function=f.q,
                        key='ADMIT|%s|leave-both-zero' % f.q,
                        message='%s removes the thread from _executingThreads under a test of %s only: a thread that holds the lock in both modes and releases one of them is deregistered while it still '
